@@ -1923,6 +1923,25 @@ def simp(v):
             if v[1][1] == "map":
                 return simp(("comp", "gen", body, ((bv, seq_, ()),)))
             return simp(("comp", "gen", bv, ((bv, seq_, (body,)),)))
+    # filter(p, S) / itertools.filterfalse(p, S) with p a bound `<container>.__contains__` or a named predicate: the filtered generator
+    # (x for x in S if x in C) / (.. if not p(x))
+    ff = v[2] if k == "call" and v[1] in (("global", "filter"), ("global", "filterfalse")) and not v[3] else \
+        v[3] if k == "meth" and v[1] == ("global", "itertools") and v[2] == "filterfalse" and not v[4] else None
+    if ff is not None and len(ff) == 2 and ff[1][0] != "star" and ff[0][0] in ("attr", "global", "lambda") and ff[0] != ("const", None):
+        f_, seq_ = ff
+        neg = not (k == "call" and v[1][1] == "filter")
+        bv = ("bv", "_m", next(_fresh))
+        if f_[0] == "lambda" and len(f_[1]) == 1:
+            bv, cond = f_[1][0], f_[2]
+        elif f_[0] == "lambda":
+            cond = None
+        elif f_[0] == "attr" and f_[2] == "__contains__":
+            cond = ("cmp", ("NotIn",) if neg else ("In",), (bv, f_[1]))
+            neg = False
+        else:
+            cond = simp(("meth", f_[1], f_[2], (bv,), ())) if f_[0] == "attr" else simp(("call", f_, (bv,), ()))
+        if cond is not None and (neg or f_[0] != "lambda"):
+            return simp(("comp", "gen", bv, ((bv, seq_, (("unop", "Not", cond) if neg else cond,)),)))
     if k == "call" and v[1] in (("global", "list"), ("global", "tuple")) and len(v[2]) == 1 and not v[3] and v[2][0][0] == "comp" and v[2][0][1] == "gen":
         return simp(("comp", "list") + tuple(v[2][0][2:]))
     # a dict display read with a constant key: {"a": x, "b": y}["a"] / .get("a") is x
